@@ -20,7 +20,9 @@ UI = {'none': ('', None), 'user': ('user@', None), 'userpw': ('user:pw@', ('user
 HOST = {'plain': ('h1.test', 'h1', 'h1.test'), 'upper': ('H1.TEST', 'h1', 'h1.test'),
         'idn': ('bücher.test', 'hi', 'xn--bcher-kva.test'), 'ip4': ('10.0.1.2', 'h4', '10.0.1.2'),
         'ip6': ('[::1]', 'h6', '[::1]'), 'ip6long': ('[0:0:0:0:0:0:0:1]', 'h6', '[::1]')}
-PORT = {'none': ('', 'def'), 'default': (':80', 'def'), 'other': (':8080', 'alt'), 'padded': (':080', 'def')}
+# 'xdef': an explicit port that is the default of ANOTHER scheme (must still be named in Host)
+PORT = {'none': ('', 'def'), 'default': (':80', 'def'), 'other': (':8080', 'alt'), 'padded': (':080', 'def'),
+        'xdef': (':443', 'alt')}
 # text -> acceptable spellings on the wire
 PATH = {'p': ('/p', ['/p']), 'empty': ('', ['/']), 'slash': ('/', ['/']), 'space': ('/a b', ['/a%20b']),
         'crlf': ('/a%0D%0Ab', ['/a%0D%0Ab', '/a%0d%0ab']), 'delims': ('/%2F%3F%23', ['/%2F%3F%23', '/%2f%3f%23']),
@@ -40,7 +42,7 @@ def render(c):
 def expect(c):
     host = HOST[c['host']]
     pc = PORT[c['port']][1]
-    auth = host[2] + (':8080' if pc == 'alt' else '')
+    auth = host[2] + (PORT[c['port']][0] if pc == 'alt' else '')
     targets = [p + q for p in PATH[c['path']][1] for q in QUERY[c['query']][1]]
     if c['path'] == 'empty' and c['query'] != 'none':
         targets = ['/' + q for q in QUERY[c['query']][1]]
@@ -111,6 +113,11 @@ def run_one(sc):
             k += 1
             e['exp'] = x
             e.pop('url', None)
+            pn = e.pop('pn', None)
+            if pn in (80, 443) and e['at']['host'] != 'proxy':
+                # no TLS on the in-memory network: a shared listener port is read relative to the URL's scheme
+                sch = x['scheme']
+                e['at'] = dict(e['at'], scheme=sch, port='def' if pn == {'http': 80, 'https': 443}[sch] else 'alt')
             # credentials from this URL's user-info belong to this URL's host
             e['auth'] = [(_owner(v, c, x['host']) if a == 'other' else a) for a, v in zip(e['auth'], e.get('_authv', e['auth']))]
             e.pop('_authv', None)
@@ -159,6 +166,8 @@ def run_text_cases(chk, quick):
         for use in ('start', 'loc302', 'loc307'):
             if use != 'start' and any(ord(ch) >= 128 for ch in text):
                 continue        # a Location field is ASCII; non-ASCII forms are only used as start URLs
+            if use != 'start' and c['port'] == 'xdef':
+                continue        # the cross-default port is exercised as a start URL only (one listener per port)
             sc = {'text': c, 'use': use, 'text_class': text_class(c), 'url_text': text}
             runs.append(('text/' + use, sc, run_one(sc)))
     for name in sorted(COOKIE_VALUES):
